@@ -46,7 +46,10 @@ Inductive stmt : Type :=
 | SReduce (g : rd) (init : value) (e : iexp)  (* print(sh(e.iter().reduce(g, init))); *)
 | SObj (n : nat) (k : okind) (items : list value) (z : Z)  (* obN = Deck|Bag|VBag|Chained.new([..] [, z]); *)
 | SRange (n h : nat) (a e : Z)               (* rgN = (a..e); | [(a..e)]; | Box.new((a..e)); | (a..e); *)
-| SPress (lo : Z) (k : nat).                 (* press(lo, k); builds the k other ranges lo..lo+1, .., lo..lo+k *)
+| SPress (lo : Z) (k : nat)                  (* press(lo, k); builds the k other ranges lo..lo+1, .., lo..lo+k *)
+| SPrintCalls (n : nat)                      (* print("@${obN.calls}"); how often the FIELD next of obN was called (M only) *)
+| SPrintCnt (d : nat)                        (* print(cD); the number of rounds of the last loop at depth d *)
+| SDeep (n : nat) (body : list stmt).        (* descend(n, || { body }); the block runs n call frames deeper (top level only) *)
 
 Record prog : Type := mkProg {
   p_fun : bool;        (* body inside fn main() (needed for return) or at top level *)
@@ -54,6 +57,7 @@ Record prog : Type := mkProg {
   p_direct : bool;     (* render x.map(f) / x.filter(p) / x.collect() / x.reduce(..) WITHOUT the explicit .iter() wherever x
                           derives Iter: by core.yl (gen/IterFns.v) every consumer calls self.iter() itself, so the
                           meaning is the same *)
+  p_fuel : nat;        (* model fuel: bound on statements per block and rounds per loop *)
   p_body : list stmt }.
 
 (* ---------- printing of values (helper sh of the prelude + print) ---------- *)
@@ -217,12 +221,23 @@ Definition exec_stmt (rec : nat -> list stmt -> mstate -> ctl * mstate) (k ofuel
       | KBag => alloc_obj (ms m) (OBag items)
       | KVBag => let '(vid, s1) := alloc_vec (ms m) items in alloc_obj s1 (OVBag vid)
       | KChained => let '(vid, s1) := alloc_vec (ms m) items in alloc_obj s1 (OChained vid z)
+      | KScaled => alloc_obj (ms m) (OWrapped items 0 (WScale z) 0)
+      | KLimited => alloc_obj (ms m) (OWrapped items 0 (WLimit (Z.to_nat z)) 0)
+      | KCounted => alloc_obj (ms m) (OWrapped items 0 WCount 0)
+      | KFieldIter => alloc_obj (ms m) (OBag items)       (* the field iter returns Script.new(items) *)
       end in
     (CNormal, m_slots (m_store m s) (upd (slots m) (OBJ + n) id))
   | SRange n _ a e =>
     let '(id, s) := alloc_obj (ms m) (ORange a e) in
     (CNormal, m_slots (m_store m s) (upd (slots m) (RG + n) id))
   | SPress _ _ => (CNormal, m)     (* other Range objects are built; no existing object changes *)
+  | SPrintCalls n =>
+    (CNormal, m_print m (b "@" ++ match nth_error (heap (ms m)) (nth (OBJ + n) (slots m) 0) with
+                                  | Some (OWrapped _ _ _ calls) => b (show_nat calls)
+                                  | _ => b "nil"
+                                  end)%list)
+  | SPrintCnt v => (CNormal, m_print m (b (show_nat (nth v (cnts m) 0))))
+  | SDeep _ body => rec d body m   (* the depth of the call stack is not part of the meaning *)
   end.
 
 Fixpoint exec (fuel ofuel : nat) (loc : bool) (d : nat) (ss : list stmt) (m : mstate) : ctl * mstate :=
@@ -240,7 +255,7 @@ Fixpoint exec (fuel ofuel : nat) (loc : bool) (d : nat) (ss : list stmt) (m : ms
   end.
 
 (* bounds the number of statements of a block and the rounds of a loop (not the total work) *)
-Definition FUEL : nat := 150.
+Definition FUEL : nat := 150.   (* default of the generators; a program carries its own bound p_fuel *)
 
 Definition finish (loc : bool) (r : ctl * mstate) : list (list byte) :=
   let '(c, m) := r in
@@ -254,9 +269,9 @@ Definition finish (loc : bool) (r : ctl * mstate) : list (list byte) :=
   end.
 
 Definition eval_mech (p : prog) : list (list byte) :=
-  finish (p_locals p) (exec FUEL OFUEL (p_locals p) 0 (p_body p) init_m).
+  finish (p_locals p) (exec (p_fuel p) (p_fuel p + 100) (p_locals p) 0 (p_body p) init_m).
 Definition early_exits (p : prog) : nat :=
-  nth EARLY (cnts (snd (exec FUEL OFUEL (p_locals p) 0 (p_body p) init_m))) 0.
+  nth EARLY (cnts (snd (exec (p_fuel p) (p_fuel p + 100) (p_locals p) 0 (p_body p) init_m))) 0.
 
 (* =====================================================================================
    (a) Spec
@@ -338,6 +353,12 @@ Definition spec_iter (mut full : bool) (e : iexp) (s : sstate) : option (nat * s
     let id := nth (OBJ + n) (sslots s) 0 in
     match nth_error (sheap s) id with
     | Some (SFresh l) => fresh l TStop
+    | Some (SRem l t) =>          (* an iterator object (wrapped Script): ONE cursor shared by all its consumers *)
+      match ops with
+      | [] => Some (id, s)
+      | _ => Some (s_alloc (s_heap s (upd (sheap s) id (SRem [] (if full then t else TUnknown))))
+                           (SRem (chain_spec ops l) t))
+      end
     | Some (SDeckS cards _ _) =>
       match ops with
       | [] => Some (id, s_heap s (upd (sheap s) id (SDeckS cards (until_stop cards) true)))
@@ -359,7 +380,10 @@ Definition spec_iter (mut full : bool) (e : iexp) (s : sstate) : option (nat * s
 Definition deck_chain (e : iexp) (s : sstate) : bool :=
   let '(x, ops) := chain_of e in
   match x, ops with
-  | EObj n, _ :: _ => match nth_error (sheap s) (nth (OBJ + n) (sslots s) 0) with Some (SDeckS _ _ _) => true | _ => false end
+  | EObj n, _ :: _ => match nth_error (sheap s) (nth (OBJ + n) (sslots s) 0) with
+                      | Some (SDeckS _ _ _) | Some (SRem _ _) => true
+                      | _ => false
+                      end
   | _, _ => false
   end.
 Definition shared_base (e : iexp) : bool :=
@@ -400,7 +424,7 @@ Fixpoint touches (fuel : nat) (ss : list stmt) : bool :=
   | S k =>
     existsb (fun s => match s with
                       | SFor e body => shared_base e || touches k body
-                      | SIf _ _ body => touches k body
+                      | SIf _ _ body | SDeep _ body => touches k body
                       | SLet _ _ | SNext _ | SObj _ _ _ _ => true
                       | SCollect e | SReduce _ _ e => shared_base e
                       | _ => false
@@ -476,6 +500,7 @@ Fixpoint sexec (fuel : nat) (mut : bool) (d : nat) (ss : list stmt) (s : sstate)
         | SObj n kd items z =>
           let x := match kd with
                    | KDeck => SDeckS items (until_stop items) true
+                   | KScaled | KLimited | KCounted => SRem (obj_elems kd items z) TStop
                    | _ => SFresh (obj_elems kd items z)
                    end in
           let '(id, s1) := s_alloc s x in
@@ -485,6 +510,9 @@ Fixpoint sexec (fuel : nat) (mut : bool) (d : nat) (ss : list stmt) (s : sstate)
           let '(id, s1) := s_alloc s (SFresh (elements (SrcRange a e))) in
           (CNormal, s_slots s1 (upd (sslots s1) (RG + n) id))
         | SPress _ _ => (CNormal, s)
+        | SPrintCalls _ => (CNormal, s)       (* call counts are not part of the property: `@` lines are M-only *)
+        | SPrintCnt v => (CNormal, s_print s (b (show_nat (nth v (scnts s) 0))))
+        | SDeep _ body => sexec k mut d body s
         end in
       match r with
       | (CNormal, s') => sexec k mut d rest s'
@@ -500,13 +528,13 @@ Fixpoint mutates (fuel : nat) (ss : list stmt) : bool :=
   | S k =>
     existsb (fun s => match s with
                       | SPush _ _ | SPop _ => true
-                      | SFor _ body | SIf _ _ body => mutates k body
+                      | SFor _ body | SIf _ _ body | SDeep _ body => mutates k body
                       | _ => false
                       end) ss
   end.
 
 Definition eval_spec (p : prog) : list (list byte) :=
-  let '(c, s) := sexec FUEL (mutates 20 (p_body p)) 0 (p_body p) init_s in
+  let '(c, s) := sexec (p_fuel p) (mutates 20 (p_body p)) 0 (p_body p) init_s in
   match c with
   | CFuel => [b "SKIP"]
   | CNormal => rev (b "end" :: ((if p_locals p then [b "222"; b "111"] else []) ++ sout s)%list)
@@ -580,6 +608,24 @@ Definition prelude : string :=
   "fn idf(x) { return x; }" ++ nl ++
   "fn press(lo, n) { var i = 1; while i <= n { var t = (lo..(lo + i)); i = i + 1; } }" ++ nl ++
   "fn pid(x, lo, n) { press(lo, n); return x; }" ++ nl ++
+  "fn deep(x, d, k) { if d <= 1 { return addk(x, k); } return deep(x, d - 1, k); }" ++ nl ++
+  "fn notin(x, lo, hi) { if type(x) == Num { return x < lo || x >= hi; } return true; }" ++ nl ++
+  "fn descend(n, f) { if n <= 0 { f(); return; } descend(n - 1, f); }" ++ nl ++
+  "fn wrap(items, mode, k) {" ++ nl ++
+  "  var c = Script.new(items);" ++ nl ++
+  "  c.calls = 0;" ++ nl ++
+  "  var plain = c.next;" ++ nl ++
+  "  c.next = || {" ++ nl ++
+  "    var seen = c.calls; c.calls = seen + 1;" ++ nl ++
+  "    if mode == 1 && seen >= k { return StopIter.new(); }" ++ nl ++
+  "    var v = plain();" ++ nl ++
+  "    if v.derives(StopIter) { return v; }" ++ nl ++
+  "    if mode == 0 { return mulk(v, k); }" ++ nl ++
+  "    return v;" ++ nl ++
+  "  };" ++ nl ++
+  "  return c;" ++ nl ++
+  "}" ++ nl ++
+  "fn fielditer(items) { var c = Script.new([99, 98]); c.iter = || { return Script.new(items); }; return c; }" ++ nl ++
   "fn sh(v) {" ++ nl ++
   "  if v.derives(StopIter) { if v.derives(MyStop) { return " ++ dq ++ "<sub>" ++ dq ++ "; } return " ++ dq ++ "<stop>" ++ dq ++ "; }" ++ nl ++
   "  if v == nil { return " ++ dq ++ "nil" ++ dq ++ "; }" ++ nl ++
@@ -613,6 +659,7 @@ Definition r_fn (f : fn) : string :=
   | Tag t => "|x| tag(x, " ++ r_str t ++ ")"
   | ConstK k => "|x| " ++ show_Z k
   | PressF lo n => "|x| pid(x, " ++ show_Z lo ++ ", " ++ show_nat n ++ ")"
+  | DeepK d k => "|x| deep(x, " ++ show_nat d ++ ", " ++ show_Z k ++ ")"
   end.
 Definition r_pr (p : pr) : string :=
   match p with
@@ -621,6 +668,7 @@ Definition r_pr (p : pr) : string :=
   | NeV v => "|x| x != " ++ r_value v
   | TrueP => "|x| true"
   | FalseP => "|x| false"
+  | NotIn lo hi => "|x| notin(x, " ++ show_Z lo ++ ", " ++ show_Z hi ++ ")"
   end.
 Definition r_rd (g : rd) : string :=
   match g with
@@ -692,6 +740,10 @@ Fixpoint r_stmts (fuel : nat) (loc dir : bool) (d : nat) (ss : list stmt) : stri
         | KBag => "Bag.new([" ++ r_values items ++ "])"
         | KVBag => "VBag.new([" ++ r_values items ++ "])"
         | KChained => "Chained.new([" ++ r_values items ++ "], " ++ show_Z z ++ ")"
+        | KScaled => "wrap([" ++ r_values items ++ "], 0, " ++ show_Z z ++ ")"
+        | KLimited => "wrap([" ++ r_values items ++ "], 1, " ++ show_Z z ++ ")"
+        | KCounted => "wrap([" ++ r_values items ++ "], 2, 0)"
+        | KFieldIter => "fielditer([" ++ r_values items ++ "])"
         end ++ ";" ++ nl
       | SRange n h a e =>
         let r := "(" ++ show_Z a ++ ".." ++ show_Z e ++ ")" in
@@ -702,6 +754,9 @@ Fixpoint r_stmts (fuel : nat) (loc dir : bool) (d : nat) (ss : list stmt) : stri
         | _ => r
         end ++ ";" ++ nl
       | SPress lo n => "press(" ++ show_Z lo ++ ", " ++ show_nat n ++ ");" ++ nl
+      | SPrintCalls n => "print(" ++ dq ++ "@${ob" ++ show_nat n ++ ".calls}" ++ dq ++ ");" ++ nl
+      | SPrintCnt v => "print(c" ++ show_nat v ++ ");" ++ nl
+      | SDeep n body => "descend(" ++ show_nat n ++ ", || {" ++ nl ++ r_stmts k loc dir d body ++ "});" ++ nl
       end) ss)
   end.
 
@@ -753,6 +808,7 @@ Definition p_fn (ts : list N) : fn * list N :=
   | 2%N :: r => let '(x, r') := p_bytes r in (Tag x, r')
   | 3%N :: k :: r => (ConstK (zof k), r)
   | 4%N :: lo :: n :: r => (PressF (zof lo) (N.to_nat n), r)
+  | 5%N :: d :: k :: r => (DeepK (N.to_nat d) (zof k), r)
   | _ => (AddK 0, [])
   end.
 Definition p_pr (ts : list N) : pr * list N :=
@@ -761,6 +817,7 @@ Definition p_pr (ts : list N) : pr * list N :=
   | 1%N :: k :: r => (GtK (zof k), r)
   | 2%N :: r => let '(v, r') := p_value r in (NeV v, r')
   | 3%N :: r => (TrueP, r)
+  | 5%N :: lo :: hi :: r => (NotIn (zof lo) (zof hi), r)
   | _ :: r => (FalseP, r)
   | [] => (FalseP, [])
   end.
@@ -818,11 +875,15 @@ Fixpoint p_stmt (fuel : nat) (ts : list N) : stmt * list N :=
     | 14%N :: n :: kd :: r =>
       let '(x, r1) := p_vlist r in
       match r1 with
-      | z :: r2 => (SObj (N.to_nat n) (match kd with 0%N => KDeck | 1%N => KBag | 2%N => KVBag | _ => KChained end) x (zof z), r2)
+      | z :: r2 => (SObj (N.to_nat n) (match kd with 0%N => KDeck | 1%N => KBag | 2%N => KVBag | 3%N => KChained | 4%N => KScaled
+                                         | 5%N => KLimited | 6%N => KCounted | _ => KFieldIter end) x (zof z), r2)
       | [] => (SBreak, [])
       end
     | 15%N :: n :: h :: a :: e :: r => (SRange (N.to_nat n) (N.to_nat h) (zof a) (zof e), r)
     | 16%N :: lo :: n :: r => (SPress (zof lo) (N.to_nat n), r)
+    | 17%N :: n :: r => (SPrintCalls (N.to_nat n), r)
+    | 18%N :: v :: r => (SPrintCnt (N.to_nat v), r)
+    | 19%N :: dp :: n :: r => let '(ss, r1) := p_block (N.to_nat n) r in (SDeep (N.to_nat dp) ss, r1)
     | _ => (SBreak, [])
     end
   end.
@@ -831,11 +892,12 @@ Fixpoint p_stmts (n : nat) (ts : list N) : list stmt :=
   | O => []
   | S j => let '(s, r) := p_stmt 30 ts in s :: p_stmts j r
   end.
-(* header: fun locals direct nstmts *)
+(* header: fun locals direct fuel nstmts *)
 Definition p_prog (ts : list N) : prog :=
   match ts with
-  | f :: l :: dr :: n :: r => mkProg (negb (N.eqb f 0)) (negb (N.eqb l 0)) (negb (N.eqb dr 0)) (p_stmts (N.to_nat n) r)
-  | _ => mkProg false false false []
+  | f :: l :: dr :: fu :: n :: r =>
+    mkProg (negb (N.eqb f 0)) (negb (N.eqb l 0)) (negb (N.eqb dr 0)) (N.to_nat fu) (p_stmts (N.to_nat n) r)
+  | _ => mkProg false false false 0 []
   end.
 Definition parse_prog (w : string) : prog := p_prog (List.concat (parse_nss w)).
 
